@@ -211,12 +211,19 @@ func (g *c02gen) inlines(ns []*c02node, pre []byte, plain bool) {
 				g.md = append(append(append(g.md, '('), url...), ' ', g.quote)
 				g.md = append(append(g.md, title...), g.quote, ')')
 			case 1: // full reference: label letters with symbolic case flips against the definition
-				lab := []byte{'l', 'b', byte('a' + my%26)}
+				lab := []byte{'l', 'b', ' ', byte('a' + my%26)}
 				g.md = append(g.md, '[')
 				for li, c := range lab {
 					// a solver-enumerated case flip per letter (forked: the label bytes stay concrete on each path)
 					if li < 2 && vp.Bool("flip") {
 						c ^= 0x20
+					}
+					if c == ' ' {
+						// any whitespace spelling of the label's inner space: one or two bytes of space/TAB
+						c = g.sym("labws", " \t")
+						if vp.Bool("labws2") {
+							g.md = append(g.md, g.sym("labws", " \t"))
+						}
 					}
 					g.md = append(g.md, c)
 				}
@@ -448,6 +455,12 @@ func (g *c02gen) blocks(ns []*c02node, first, pre []byte, tight bool, depth int)
 				f2 := append(padTo(lead, ind), marker...)
 				lead = pre
 				p2 := padTo(pre, ind+len(marker))
+				if len(item.kids) == 0 {
+					// an empty item: the bare marker
+					g.md = append(append(g.md, trimRightSp(f2)...), '\n')
+					g.html = append(g.html, "<li></li>\n"...)
+					continue
+				}
 				g.html = append(g.html, "<li>"...)
 				if loose || (len(item.kids) > 0 && item.kids[0].k != 'P') {
 					g.html = append(g.html, '\n')
